@@ -67,6 +67,26 @@ def bc_extended_support(mesh, S, spec):
     return ext
 
 
+def flagged_element_at_border(mesh, support, swapped):
+    """True if an element of a swapped-normals domain inside `support` has an edge (or vertex) on the border of the support."""
+    v, e, d = mesh
+    flagged = set(int(x) for x in (swapped or ()))
+    if not flagged:
+        return False
+    support = np.asarray(support)
+    sup = set(int(t) for t in (np.flatnonzero(support) if support.dtype == bool else support))
+    count = {}
+    for t in sup:
+        for a, b in ((0, 1), (1, 2), (2, 0)):
+            k = tuple(sorted((int(e[a, t]), int(e[b, t]))))
+            count[k] = count.get(k, 0) + 1
+    border_vertices = set()
+    for (a, b), c in count.items():
+        if c == 1:
+            border_vertices.update((a, b))
+    return any(int(d[t]) in flagged and any(int(e[i, t]) in border_vertices for i in range(3)) for t in sup)
+
+
 def orientation_inconsistent(mesh, swapped):
     """True if the effective orientation (vertex order x swapped-normals flag) flips across a manifold edge."""
     v, e, d = mesh
@@ -123,6 +143,11 @@ def check_space(ctx, meshname, mesh, grid, spec, deep=True):
             return None
         if kind in SP.EDGE_KINDS and any(len(l) > 2 for l in R.undirected_edges(e).values()):
             ctx.declined += 1  # edge spaces on non-manifold edges are outside the reference (B.1)
+            return None
+        if kind in ("BC", "RBC") and isinstance(exc, ValueError) and flagged_element_at_border(mesh, bc_extended_support(mesh, S, spec), spec.get("swapped")):
+            # recorded finding: the border routine of the BC construction does not know swapped_normals
+            ctx.violation("%s/construct/flagged-domain-at-border/exception:ValueError" % sig0, case,
+                          "function_space raised %r: a domain stored reversed and repaired by swapped_normals touches the border of the support" % (exc,))
             return None
         ctx.violation("%s/construct/exception:%s" % (sig0, type(exc).__name__), case, "function_space raised %r" % (exc,))
         return None
@@ -452,7 +477,8 @@ def plan(ctx):
               ("nested", ["P1", "RWG", "SNC", "BC", "RBC", "DUAL0"], False, [(5,)]), ("torus18", ALL_KINDS, False, [()]),
               # a domain stored with reversed orientation and repaired through swapped_normals: the effective orientation is consistent,
               # so BC/RBC accept the grid and the normal multipliers of the barycentric elements matter
-              ("tet~1", ["RWG", "SNC", "BC", "RBC", "DUAL0", "DUAL1"], False, [(1,)]), ("octa~2", ["SNC", "BC", "RBC"], False, [(2,)])]
+              ("tet~1", ["RWG", "SNC", "BC", "RBC", "DUAL0", "DUAL1"], False, [(1,)]), ("octa~2", ["SNC", "BC", "RBC"], False, [(2,)]),
+              ("edge2~1", ["RWG", "SNC", "BC", "RBC"], False, [(1,)])]
     else:
         P += [("tri1", ["DP0", "DP1", "P1", "RWG", "SNC"], True, [()]), ("edge2", ALL_KINDS, True, [(), (1,)]),
               ("bow2", ["DP0", "DP1", "P1", "RWG", "SNC"], True, [(), (1,)]),
@@ -465,7 +491,8 @@ def plan(ctx):
               ("nested", ALL_KINDS, False, [(), (5,)]), ("torus18", ALL_KINDS, False, [(), (1,)]),
               ("lshape28", ALL_KINDS, False, [()]),
               ("tet~1", ALL_KINDS, True, [(1,)]), ("octa~2", ALL_KINDS, True, [(2,)]), ("cube12~3", ALL_KINDS, False, [(3,)]),
-              ("nested~5", ALL_KINDS, False, [(5,)]), ("screen3x3~1", ALL_KINDS, False, [(1,)])]
+              ("nested~5", ALL_KINDS, False, [(5,)]), ("screen3x3~1", ALL_KINDS, False, [(1,)]), ("edge2~1", ALL_KINDS, True, [(1,)]),
+              ("fan4~1", ALL_KINDS, True, [(1,)])]
     return P
 
 
